@@ -77,6 +77,15 @@ func BuildCardAccess(paceInfos []PaceInfoSpec, extra ...[]byte) []byte {
 	return BuildSecurityInfos(infos...)
 }
 
+// BuildCardAccessExtraFirst is BuildCardAccess with the extra SecurityInfos written BEFORE the PACE infos.
+func BuildCardAccessExtraFirst(paceInfos []PaceInfoSpec, extra ...[]byte) []byte {
+	infos := append([][]byte{}, extra...)
+	for _, p := range paceInfos {
+		infos = append(infos, PaceInfo(p))
+	}
+	return BuildSecurityInfos(infos...)
+}
+
 // ChipAuthenticationInfo ::= SEQUENCE { protocol OID, version INTEGER, keyId INTEGER OPTIONAL }.
 func ChipAuthenticationInfo(oid string, version int, keyID *int) []byte {
 	if version == 0 {
